@@ -95,6 +95,7 @@ impl Scheduler for SimScheduler {
     }
 
     fn next_task(&mut self, runnable: &[&Task], current: Option<TaskId>, is_yielding: bool) -> Option<TaskId> {
+
         let mut ids: Vec<usize> = runnable.iter().map(|t| usize::from(t.id())).collect();
         ids.sort_unstable();
         let cur: Option<usize> = current.map(usize::from);
